@@ -118,6 +118,10 @@ var c12Prologues = []struct{ name, text string }{
 	{"utf8-bom", "\xEF\xBB\xBF<html><head>"},
 	{"long-comment-1500", "<html><!-- " + strings.Repeat("padding ", 190) + "--><head>"},
 	{"long-text-2500", "<html><body><p>" + strings.Repeat("lorem ipsum ", 208) + "</p>"},
+	// single tokens longer than the default limit: only examined with a raised limit
+	{"long-comment-5000", "<html><!-- " + strings.Repeat("padding ", 625) + "--><head>"},
+	{"long-script-6000", "<html><head><script>/* " + strings.Repeat("x = 1; ", 860) + "*/</script>"},
+	{"long-text-9000", "<html><body>" + strings.Repeat("lorem ipsum ", 750) + "<head>"},
 }
 
 var c12Epilogues = []string{``, `</head><body>text</body></html>`, "\n<p>caf\xe9</p>"}
@@ -162,7 +166,13 @@ func c12Run(c *core.Ctx) {
 				limits = append(limits, uint32(cut))
 			}
 		}
+		if declEnd > 3072 {
+			limits = append(limits, 16384, 1<<20)
+		}
 		for _, l := range limits {
+			if l != 0 && int(l) < declEnd {
+				continue // the declaration must lie inside the examined header
+			}
 			cs.Limit = l
 			c.R.Transitions++
 			c.R.Evals++
